@@ -326,6 +326,8 @@ def gen_op(rng, ai, pool, ctx):
             b = {'k': 'other', 'alg': other, 'of': gen_operand(rng, ctx['pools'][other], other, ctx, allow_shared=False)}
         if form == 'method' and a.get('k') in ('num', 'call0', 'list'):
             form = 'alg'
+        if rng.random() < 0.06 and a.get('k') not in ('num', 'call0', 'list'):
+            b = {'k': 'same', 'of': a}          # both operands are one object
         return {'alg': ai, 'kind': 'bin', 'op': name, 'form': form, 'args': [a, b]}
     if kind == 'un':
         name = rng.choice(ctx['unops'])
